@@ -52,6 +52,12 @@ def run(F, rep, tier):
     # .. and what is deferred is the check that would have run with the annotation present
     import c03
     c03.defer_recorded(F, rep)
+    import core as _core
+    _core.borrow(rep, lambda F_, r_: c03.accept(F_, r_, "ACCEPT"), lambda o: o["rule"] == "DEFER-RECORDED", F)
+    # a definition is used at several types for what its value *is* (a function, or the name of one) - not for what its signature
+    # happens to say: a function with every type written out is generalised like the one without (shared with C02/C03)
+    import c02 as _c02
+    _core.borrow(rep, lambda F_, r_: _c02.copy_discipline(F_, r_), lambda o: o["rule"] == "COPY" and o["key"] == "generalised|insertions", F)
     # a type variable is bound by its position in the declaration's list
     import engines
     engines.order_preserved(F, rep, "ORDER-PRESERVED", ["sylt_compiler::name_resolution::"],
